@@ -275,7 +275,8 @@ def _strategy(nmax: int):
         kind = draw(st.sampled_from(["eigen", "eigen", "eigen_stab", "newton", "higher"]))
         solver: dict = {"kind": kind}
         if kind == "newton":
-            solver.update(max_it=draw(st.sampled_from([100, 1000, 20])), tol=draw(st.sampled_from([1e-6, 1e-4, 1e-10] if dtype == "f64" else [1e-6, 1e-4, 1e-5])))
+            # small iteration budgets end runs close to, but above, the tolerance: the flag must then say so
+            solver.update(max_it=draw(st.sampled_from([100, 1000, 20, 8, 12, 16, 30])), tol=draw(st.sampled_from([1e-6, 1e-4, 1e-10] if dtype == "f64" else [1e-6, 1e-4, 1e-5])))
         elif kind == "higher":
             solver.update(max_it=draw(st.sampled_from([100, 20])), tol=draw(st.sampled_from([1e-8, 1e-12, 1e-6] if dtype == "f64" else [1e-6, 1e-5, 1e-8])),
                           order=draw(st.integers(2, 4)), rel_eps=draw(st.sampled_from([0.0, 0.0, 1e-6, 1e-3])))
